@@ -13,6 +13,8 @@ UNIT_ALIASES = {"identifier_ic": ("identifier", ["--cfg", 'feature="ignore_case"
 
 MATRIX_FNS = ["matrix", "lemma_cell_sem", "lemma_cmp_rekey", "lemma_cell_missing", "lemma_row_eval", "lemma_row_cells", "lemma_conj_true", "lemma_row_sem", "lemma_rows_eval", "lemma_matrix_defined", "lemma_matrix_sem", "lemma_or_true", "lemma_cell_wf", "lemma_row_wf", "lemma_matrix_wf", "lemma_row_srcs", "lemma_matrix_truth", "lemma_or_arm", "lemma_or_arm_ident", "lemma_or_arm_head", "lemma_or_plain", "lemma_and_arm", "lemma_be_arm", "lemma_negate_arm", "lemma_nested_arm", "lemma_nested_truth", "lemma_nested_exact", "lemma_nested_array_truth", "lemma_nested_array_exact", "lemma_or_free_head", "lemma_match_single", "lemma_match_group", "lemma_post_refl", "lemma_mx_empty", "lemma_mx_push_row", "lemma_mx_push_rest", "lemma_row_from_lookup", "lemma_row_single"]
 
+BATCH_FNS = ["batch", "lemma_ac_member", "lemma_ac_any", "lemma_single_kind", "lemma_exact_empty", "lemma_any_ctx_push", "lemma_any_regex_push", "lemma_any_group_push", "lemma_any_ident_take", "lemma_group_ok_push"]
+
 PROPS = {
     "C15": {
         "units": {"identifier": ["into_identifier", "lemma_ignore_case_is_i_prefix"], "identifier_ic": ["into_identifier"]},
@@ -42,9 +44,11 @@ PROPS = {
         "assumptions": ["YAML -> expression translation (parse_mapping) is not under contract"],
     },
     "C07": {
-        "units": {"solver": ["search"], "identifier": ["into_identifier"]},
-        "explanation": "search() equals the documented relation per kind over all strings (byte-level model of str); the Aho-Corasick arm is proved to accept exactly when some reported occurrence passes its start/end filter",
-        "assumptions": ["the automaton reports exactly the occurrences of its needles (trusted spec of aho-corasick)", "list batching in parse_mapping is not under contract"],
+        "units": {"solver": ["search"], "identifier": ["into_identifier"], "batch": BATCH_FNS},
+        "explanation": "search() equals the documented relation per kind over all strings (byte-level model of str); the Aho-Corasick arm is proved to accept exactly when some reported occurrence passes its start/end filter; the list-batching block of parse_mapping (src/parser.rs:1397-1566, verified as a slice: a function of its free variables) is proved to build searches that, taken together, match a string exactly when some member of the list matches it on its own - case-sensitive and case-insensitive needles in their own automata with context entry i naming needle i, a single case-sensitive needle as the plain std search, empty exact patterns kept out of the automata, regexes in their sets",
+        "assumptions": ["AhoCorasickBuilder / RegexSetBuilder are expression holes: the automaton is assumed to report (overlapping iteration) exactly the occurrences of its needles, ASCII-case-insensitively when built so (ac_of); the regex set rebuilt from the members' pattern texts is assumed to have the members' languages",
+                        "batch slice: the five input vectors are assumed to hold identifiers of their own kind (kinds_ok): the classification match directly above the slice, the Yaml walk and the single-string arm of parse_mapping are not under contract",
+                        "UTF-8 encoding is injective (axiom)"],
     },
     "C10": {
         "units": {"paths": ["ObjectV::find", "ObjectVS::find"], "solver": ["solve_expression"]},
@@ -94,9 +98,9 @@ PROPS = {
         "assumptions": ["Matrix arms are holes, so 'synthetic keys never reach the user's document' is assumed there", "invariance under unaddressed fields needs the frame lemma over sem3 (not yet proved)"],
     },
     "C17": {
-        "units": {"solver": ["solve_expression", "lemma_or3_reorder", "lemma_and3_truth_reorder", "lemma_reorder_same_values", "lemma_binary_commute", "lemma_of0_reorder", "lemma_group_reorder", "lemma_and3_true_iff", "lemma_and2", "lemma_or2", "search"], "matrix": MATRIX_FNS},
+        "units": {"solver": ["solve_expression", "lemma_or3_reorder", "lemma_and3_truth_reorder", "lemma_reorder_same_values", "lemma_binary_commute", "lemma_of0_reorder", "lemma_group_reorder", "lemma_and3_true_iff", "lemma_and2", "lemma_or2", "search"], "matrix": MATRIX_FNS, "batch": BATCH_FNS},
         "explanation": "lemmas over the truth tables: or3 is invariant under any reordering of its operands, and3 / all are TRUE for the same operand sets under reordering, binary forms commute in truth; lifted to BooleanGroup expressions (lemma_group_reorder); with solve_expression == sem3 this is the property for or/and operands, mapping entries and sequences of mappings. The merged-search semantics (search_rel for AhoCorasick) is an existential over reported occurrences, hence order-free. matrix(): a row is true exactly when all conjuncts of its disjunct are, and the matrix exactly when some disjunct is - statements over sets, so the batching into rows and columns (whose order comes from a HashMap) cannot make the truth of the or-group depend on operand order.",
-        "assumptions": ["the parser's re-batching of list members keeps needles and contexts aligned (parse_mapping not under contract)", "of(n>=1) count invariance under reordering is not yet proved as a lemma"],
+        "assumptions": ["list batching: proved for the batching block (aligned(context, needles), and the merged searches mean 'some member matches', a statement over the set of members); the classification of list members into the five vectors above it is not under contract", "of(n>=1) count invariance under reordering is not yet proved as a lemma"],
     },
     "C06": {
         "units": {"solver": SOLVER_CORE + ["solve"]},
